@@ -263,6 +263,15 @@ func subRequestTextV(fieldName, topic string, sels []model.Sel, form int) string
 		root = &model.Spread{Name: "Root"}
 	}
 	d.Ops = []*model.Op{{Kind: "subscription", Name: "S", Sels: []model.Sel{root}}}
+	if form == 4 || form == 5 {
+		// the topic comes from a variable: left to its default (4) or supplied over another default (5)
+		vd := &model.VarDef{Name: "t", Type: model.Named("String"), HasDefault: true, Default: topic}
+		if form == 5 {
+			vd.Default = "zz-not-this-one"
+		}
+		d.Ops[0].Vars = []*model.VarDef{vd}
+		d.Ops[0].Sels = []model.Sel{&model.Field{Name: fieldName, Args: []model.Arg{{Name: "topic", Value: model.VarRef("t")}}, Sels: sels}}
+	}
 	return d.Print(model.LayoutN(0))
 }
 
@@ -305,6 +314,7 @@ func runC19(c *run.Ctx) {
 		type keptReq struct {
 			text, topic, field string
 			sels               []model.Sel
+			vars               map[string]interface{}
 		}
 		var kept []keptReq
 		reusedExe := 0
@@ -398,7 +408,11 @@ func runC19(c *run.Ctx) {
 				ro.mu.Unlock()
 				form := 0
 				if r.Intn(4) == 0 {
-					form = 1 + r.Intn(3)
+					form = 1 + r.Intn(5)
+				}
+				var reqVars map[string]interface{}
+				if form == 5 {
+					reqVars = map[string]interface{}{"t": topic}
 				}
 				text := subRequestTextV(h.field, topic, h.sels, form)
 				hist = append(hist, fmt.Sprintf("subscribe#%d topic=%s fail=%v %s", h.sid, topic, keysOfBool(h.failOn), strings.TrimSpace(text)))
@@ -409,14 +423,14 @@ func runC19(c *run.Ctx) {
 				if viaExe && len(kept) > 0 && r.Intn(2) == 0 {
 					// the same request as an earlier subscriber's, through the executable parsed back then
 					k := kept[r.Intn(len(kept))]
-					text, topic, h.sels, h.field = k.text, k.topic, k.sels, k.field
+					text, topic, h.sels, h.field, reqVars = k.text, k.topic, k.sels, k.field, k.vars
 					hist[len(hist)-1] = fmt.Sprintf("subscribe#%d topic=%s fail=%v %s", h.sid, topic, keysOfBool(h.failOn), strings.TrimSpace(text))
 				} else if viaExe {
-					kept = append(kept, keptReq{text, topic, h.field, h.sels})
+					kept = append(kept, keptReq{text, topic, h.field, h.sels, reqVars})
 				}
 				pv, _ := run.Protect(func() {
 					if !viaExe {
-						res = root.ResolveString(text, "", nil)
+						res = root.ResolveString(text, "", copyVars(reqVars))
 						return
 					}
 					exe := exeCache[text]
@@ -432,7 +446,7 @@ func runC19(c *run.Ctx) {
 					}
 					hist[len(hist)-1] += "  [ResolveExecutable on the kept parsed executable]"
 					var rerr error
-					if res, rerr = root.ResolveExecutable(exe, "", nil); rerr != nil {
+					if res, rerr = root.ResolveExecutable(exe, "", copyVars(reqVars)); rerr != nil {
 						res = map[string]interface{}{"errors": rerr.Error()}
 					} else if res == nil {
 						res = map[string]interface{}{}
